@@ -289,7 +289,12 @@ def run(ctx):
                 for form, value in item_forms(tree, rng):
                     _construct_case(ctx, Icls, tree, form, value)
                 _decode_case(ctx, I, tree, e5ref.encode(tree), f"{fmt}:single-byte")
-        # every format code x length byte count
+        # every byte value inside a BOOLEAN body: anything but zero is TRUE (as the variables API reads it, C02),
+        # and the item re-encodes canonically
+        for b in range(256):
+            _decode_case(ctx, I, ("BOOLEAN", [b != 0]), bytes([0x25, 1, b]), "BOOLEAN:any-byte")
+            _decode_case(ctx, I, ("BOOLEAN", [False, b != 0, True]), bytes([0x25, 3, 0, b, 255 - (b % 200)]), "BOOLEAN:any-byte")
+            ctx.count("enumerated.boolean_bytes")
         for fmt in gen.LEAF_FMTS + ["L"]:
             for nlen in (1, 2, 3):
                 tree = ("L", [("U1", [1]), ("A", b"x")]) if fmt == "L" else gen.leaf(rng, fmt, n=2)
